@@ -740,11 +740,27 @@ def c17_r5(ctx: Ctx, rule):
                          "%s uses `%s = len(%s)` at line %d after `%s` (line %d) rebound %s: the bound no longer measures the buffer" % (short(q), N, V, getattr(un.stmt, "lineno", 0), norm(rb)[:50], rb.lineno, V),
                          "a large document with non-ASCII text written to a binary stream or a path: only the first len(text) bytes of the longer UTF-8 encoding are written")
     res.ob("lengths taken of buffers on the write paths: %d" % n, nontrivial=False)
-    # slices of the buffer handed to write(): the whole buffer must go out - reported as an observation when chunking is present
+    # slices of the buffer handed to write(): a slice with *constant* bounds (x[:-1], x[1:], x[:n]) is not the whole buffer whatever
+    # the producer wrote (the last byte of a JSON-LD document is its closing bracket); a slice bounded by loop variables is chunking
     for q in cl:
-        for c in calls_in(ctx.fn(q).node):
-            if call_name(c) == "write" and c.args and isinstance(c.args[0], ast.Subscript) and isinstance(c.args[0].slice, ast.Slice):
-                res.ob("%s writes a slice (%s): chunked output" % (short(q), norm(c.args[0])[:50]))
+        fq = ctx.fn(q)
+        for c in calls_in(fq.node):
+            if call_name(c) != "write" or not c.args:
+                continue
+            a = c.args[0]
+            cands = [a, resolve_local(fq.node, a)]
+            for x in list(cands):
+                if isinstance(x, ast.Call) and isinstance(x.func, ast.Attribute) and x.func.attr in ("decode", "encode"):
+                    cands.append(x.func.value)
+                    cands.append(resolve_local(fq.node, x.func.value))
+            for x in cands:
+                if isinstance(x, ast.Subscript) and isinstance(x.slice, ast.Slice):
+                    bounds = [b for b in (x.slice.lower, x.slice.upper) if b is not None]
+                    const = bool(bounds) and all(isinstance(b, ast.Constant) or (isinstance(b, ast.UnaryOp) and isinstance(b.operand, ast.Constant)) for b in bounds)
+                    res.ob("%s writes a slice %s: %s" % (short(q), norm(x)[:50], "CONSTANT bounds" if const else "chunked output"))
+                    if const:
+                        res.fail(rule.id, "constant-slice-written::%s" % q, ctx.loc(q, x), "%s writes %s: a fixed part of the produced buffer is cut off" % (short(q), norm(x)[:50]),
+                                 "serialize(path, format='rdf', rdf_format='json-ld') writes the document without its closing bracket")
     res.ob("functions examined: %d" % len(cl))
     return res
 
@@ -952,3 +968,46 @@ RULES.setdefault("C16", []).append(Rule("C16.R12", "a text destination receives 
                                         "text and binary destinations hold the same document, non-ASCII names included"))
 RULES.setdefault("C02", []).append(Rule("C02.R12", "the XML text a string/text-stream destination receives is produced in the encoding it is decoded with (shared with C16.R12)", 1, c16_r12, "F-SIB",
                                         "the PROV-XML round trip through a returned string holds for non-ASCII attribute names"))
+
+
+# ===================================================================================== C16.R13 what counts as a stream: one test, by capability
+def c16_r13(ctx: Ctx, rule):
+    """prov.read(source), ProvDocument.deserialize(source) and ProvDocument.serialize(destination) decide whether their argument is a
+    stream.  They are siblings: a file-like object (tempfile.NamedTemporaryFile, an upload wrapper, urllib's response) must be a
+    stream for all three, so each decides by capability - hasattr(x, "read") / hasattr(x, "write") - never by isinstance against
+    io classes, which such objects do not derive from."""
+    res = RuleResult()
+    sites = []
+    for q, par_idx, cap in ((M + ".ProvDocument.deserialize", 0, "read"), ("prov.read", 0, "read"), (M + ".ProvDocument.serialize", 1, "write")):
+        if q not in ctx.p.functions:
+            raise AnalysisError("anchor vanished: function %s" % q)
+        fi = ctx.fn(q)
+        ps = fi.params[1:] if fi.cls and not fi.is_static else fi.params
+        if q.endswith(".serialize"):
+            ps = fi.params
+        src = fi.params[par_idx] if q.endswith(".serialize") else (ps[0] if ps else None)
+        for q2 in ctx.helper_closure(q, 1):
+            f2 = ctx.fn(q2)
+            for n in walk_function(f2.node):
+                if isinstance(n, ast.Call) and call_name(n) == "hasattr" and len(n.args) == 2 and isinstance(n.args[1], ast.Constant) and n.args[1].value in ("read", "write"):
+                    sites.append((q, q2, "capability", n))
+                if isinstance(n, ast.Call) and call_name(n) == "isinstance" and len(n.args) == 2 and any(t in norm(n.args[1]) for t in ("IOBase", "RawIOBase", "BufferedIOBase", "io.IO", "TextIOWrapper", "BufferedReader", "BytesIO", "StringIO", "IO[")):
+                    # isinstance(stream, io.TextIOBase) inside the stream branch (text vs binary) is a different question: only a test
+                    # that is applied to the *source/destination parameter* of the entry function decides "stream or not"
+                    if q2 == q and isinstance(n.args[0], ast.Name) and n.args[0].id == src and "TextIOBase" not in norm(n.args[1]):
+                        sites.append((q, q2, "class", n))
+    by_entry = {}
+    for q, q2, kind, n in sites:
+        by_entry.setdefault(q, set()).add(kind)
+        res.ob("%s: stream test %s (%s)" % (short(q) if q.count(".") > 2 else q, norm(n)[:50], kind))
+    for q, q2, kind, n in sites:
+        if kind == "class":
+            res.fail(rule.id, "stream-by-class::%s" % q, ctx.loc(q2, n), "%s decides that its argument is a stream with %s: file-like objects that only delegate to a file are taken for file names" % (short(q) if q.count(".") > 2 else q, norm(n)[:50]),
+                     "ProvDocument.deserialize(tempfile.NamedTemporaryFile(), format='json') raises TypeError (expected str, bytes or os.PathLike), while prov.read() of the same object works")
+    if len([q for q, ks in by_entry.items() if "capability" in ks]) < 2:
+        raise AnalysisError("fewer than two entry points test for a stream by capability: the instances this rule was confirmed on are gone")
+    return res
+
+
+RULES.setdefault("C16", []).append(Rule("C16.R13", "source / destination kinds are told apart by capability (hasattr read / write), the same way at every entry point", 3, c16_r13, "F-SIB",
+                                        "every file-like source kind deserialises, with and without an explicit format"))
